@@ -414,3 +414,9 @@ annotate = FunctionContract(
             ("entry = {'success': mod_found, 'key': key, 'index': idx}", "entry = {'success': True, 'key': key, 'index': idx}")],
 )
 CONTRACTS.append(annotate)
+
+# the grouping of atoms into residues this property rests on (make_residue_graph = collect_residues, then partition_graph, then
+# the common attributes of each residue): re-verified here from the current source
+from contracts import graph_utils as _gu
+CONTRACTS.append(_gu.collect_residues('C19'))
+CONTRACTS.append(_gu.partition_graph('C19'))
